@@ -19,8 +19,25 @@ class MachineryError(Exception):
     """Anything that is not a verdict about the property (exit code 2)."""
 
 
+_swept = False
+
+
+def _sweep_stale():
+    """Remove scratch directories left behind by killed runs (their owning process no longer exists)."""
+    global _swept
+    if _swept:
+        return
+    _swept = True
+    for name in os.listdir(OUT):
+        m = re.match(r"^[a-z]+-(\d+)-", name)
+        path = os.path.join(OUT, name)
+        if m and os.path.isdir(path) and not os.path.exists(f"/proc/{m.group(1)}"):
+            shutil.rmtree(path, ignore_errors=True)
+
+
 def scratch(prefix="run"):
     os.makedirs(OUT, exist_ok=True)
+    _sweep_stale()
     return tempfile.mkdtemp(prefix=f"{prefix}-{os.getpid()}-", dir=OUT)
 
 
